@@ -289,7 +289,19 @@ func (p *Program) GenFunc(fc *FuncContract, prop string) (res *FuncResult) {
 			rn[lt.Name] = Val{T: vc.Define("plet_"+lt.Name, rsc.eval(lt.Expr))}
 		}
 		for _, w := range fc.Witness {
-			rn[w.Name] = Val{T: vc.Define("wit_"+w.Name, rsc.eval(w.Expr))}
+			func() {
+				defer func() {
+					if r := recover(); r != nil {
+						if _, isSpec := r.(specError); !isSpec {
+							panic(r)
+						}
+						// the witness expression mentions names not bound on this return path: it stays arbitrary
+						// there (proving the clause for an arbitrary value is the stronger statement)
+						rn[w.Name] = Val{T: vc.Declare("wit_"+w.Name+"_arbitrary", vc.sortByName("Int"))}
+					}
+				}()
+				rn[w.Name] = Val{T: vc.Define("wit_"+w.Name, rsc.eval(w.Expr))}
+			}()
 		}
 		for _, u := range fc.PostUses {
 			vc.Assume(Implies(r.reach, rsc.evalBool(u.Expr)), "lemma instance "+u.Text)
